@@ -158,7 +158,7 @@ func Run(t *sim.Tape, profile, tier string) (res *sim.RunResult) {
 	w.cfg = drawConfig(t, profile, tier)
 	w.setup()
 	w.loop()
-	if !w.fatal && len(w.viols) == 0 {
+	if !w.fatal && !w.ownViolation() {
 		w.quiesce()
 	}
 	w.finish()
@@ -276,7 +276,7 @@ func (w *World) scheduleActor(i int) {
 }
 
 func (w *World) loop() {
-	for w.q.Len() > 0 && !w.fatal && len(w.viols) == 0 {
+	for w.q.Len() > 0 && !w.fatal && !w.ownViolation() {
 		if w.mined >= w.cfg.MaxBlocks || w.step >= w.cfg.MaxSteps {
 			return
 		}
@@ -780,7 +780,7 @@ func (w *World) quiesce() {
 	}
 	w.heal()
 	drain := func() {
-		for w.q.Len() > 0 && !w.fatal && len(w.viols) == 0 {
+		for w.q.Len() > 0 && !w.fatal && !w.ownViolation() {
 			ev := heap.Pop(&w.q).(*event)
 			w.now = ev.at
 			w.step++
@@ -797,7 +797,7 @@ func (w *World) quiesce() {
 	drain()
 	// bounded liveness: after the last fault, L more blocks from the heaviest
 	// node; then every node must hold the same tip.
-	for round := 0; round < 12 && !w.fatal && len(w.viols) == 0; round++ {
+	for round := 0; round < 12 && !w.fatal && !w.ownViolation(); round++ {
 		if w.converged() {
 			break
 		}
@@ -816,7 +816,7 @@ func (w *World) quiesce() {
 		}
 		drain()
 	}
-	if w.fatal || len(w.viols) > 0 {
+	if w.fatal || w.ownViolation() {
 		return
 	}
 	if !w.converged() {
@@ -885,3 +885,15 @@ func (w *World) finish() {
 var debugHook func(w *World)
 var debugKeep int
 var debugLines []string
+
+// ownViolation reports whether the property this run is about has been
+// violated (violations of other properties are recorded but do not stop the
+// run unless they make it meaningless, which sets fatal).
+func (w *World) ownViolation() bool {
+	for _, v := range w.viols {
+		if v.Property == w.cfg.Profile {
+			return true
+		}
+	}
+	return false
+}
